@@ -155,6 +155,7 @@ pub struct Verdicts {
     pub keys: BTreeSet<String>,
     pub samples: Vec<Value>,
     pub prop: String,
+    fail_counts: std::collections::HashMap<String, u32>,
 }
 
 impl Verdicts {
@@ -167,6 +168,7 @@ impl Verdicts {
             keys: BTreeSet::new(),
             samples: vec![],
             prop: prop.to_string(),
+            fail_counts: Default::default(),
         }
     }
     /// Record one comparison. `class` is the input class the spec assigns (stable finding key).
@@ -178,7 +180,9 @@ impl Verdicts {
         }
         if !ok {
             self.failed += 1;
-            if self.failed <= 400 {
+            let c = self.fail_counts.entry(key.clone()).or_insert(0);
+            *c += 1;
+            if *c <= 5 {
                 let v = json!({"ok": false, "key": key, "case": case, "observed": observed});
                 writeln!(self.out, "{}", v).unwrap();
             }
